@@ -5,7 +5,7 @@ RULE = ("Scenarios come from the harness generators (one splitmix64 PRNG per sce
         "distinct = distinct hash of the scenario-definition lines (implementation answers excluded); "
         "non-trivial per kind: ")
 
-DIST_KEYS = {"cyclic", "abort", "small", "outcome", "form", "depth", "rules", "palette", "class"}
+DIST_KEYS = {"cyclic", "abort", "small", "outcome", "form", "depth", "rules", "palette", "class", "prem", "gens"}
 
 
 def nontrivial(kind, st, r):
@@ -113,24 +113,24 @@ PROPS = {
         "theorems": ["ArgMapper.C01.flow_compat", "ArgMapper.C01.callGraph_edges", "ArgMapper.C01.call_args_flow", "ArgMapper.C01.initSt_storeOK", "ArgMapper.C01.flow_ruleFlow", "ArgMapper.C01.callGraph_store_origin", "ArgMapper.C01.injection_sound_partial", "ArgMapper.C01.counterexample_twin_interfaces", "ArgMapper.C01.newFunc_keysOK", "ArgMapper.C01.callGraph_no_arg_root", "ArgMapper.C01.stdCtx_funcsOK", "ArgMapper.C01.injection_sound"],
         "facts": {"r5SkipSame": "true", "r6NameTest": "true", "publishAfterUpdate": "true", "trackReaching": "true", "takeValuedNamed": "true", "memoCopy": "true"},
         "rule": "call: at least one function executed, or an unsatisfied error with a converter present.",
-        "runs": {"quick": [fam("call", 600, 0)], "thorough": [fam("call", 100000, 0)]},
+        "runs": {"quick": [fam("call", 600, 0), fam("call", 200, 0, "gens")], "thorough": [fam("call", 100000, 0), fam("call", 20000, 0, "gens")]},
     },
     "C06": {
-        "claim": "Theorems (any oracle, behaviour, state): reach_never_out_of_fuel / call_never_out_of_fuel (recursion depth bounded by the number of function vertices), no_elem_or_unknown_panic, malformed_options, counterexample_mutual_cycle_diverges (the unrepaired model diverges on the F3 input). No panic, crash or unbounded recursion on well-formed use. Decided on the model's explicit panic sites and fuel; real stack / reflect behaviour by crash-isolated exploration (worker restarted after a fatal stack overflow).",
+        "claim": "Theorems (any oracle, behaviour, state): reach_never_out_of_fuel / call_never_out_of_fuel (recursion depth bounded by the number of function vertices), no_elem_or_unknown_panic, malformed_options, counterexample_mutual_cycle_diverges (the unrepaired model diverges on the F3 input), generator_error_reported / generators_transparent / runGens_perm (converter generators: an error on any visited value aborts with an error for every iteration order; otherwise the graph is callGraph of the builder extended by the generated converters). No panic, crash or unbounded recursion on well-formed use. Decided on the model's explicit panic sites and fuel; real stack / reflect behaviour by crash-isolated exploration (worker restarted after a fatal stack overflow).",
         "note": "partial: only the modelled panic sites and the modelled recursion are covered by the model; the rest by exploration.",
-        "theorems": ["ArgMapper.C06.reach_never_out_of_fuel", "ArgMapper.C06.call_never_out_of_fuel", "ArgMapper.C06.counterexample_mutual_cycle_diverges", "ArgMapper.C06.no_elem_or_unknown_panic", "ArgMapper.C06.malformed_options"],
+        "theorems": ["ArgMapper.C06.reach_never_out_of_fuel", "ArgMapper.C06.call_never_out_of_fuel", "ArgMapper.C06.counterexample_mutual_cycle_diverges", "ArgMapper.C06.no_elem_or_unknown_panic", "ArgMapper.C06.malformed_options", "ArgMapper.C06.generators_transparent", "ArgMapper.C06.no_generators", "ArgMapper.C06.generator_error_reported", "ArgMapper.C06.generated_sound_complete", "ArgMapper.C06.runGens_perm", "ArgMapper.C06.genVerts_kinds", "ArgMapper.C06.supplied_in_snapshot"],
         "facts": {"r5SkipSame": "true", "r6NameTest": "true", "publishAfterUpdate": "true", "trackReaching": "true", "takeValuedNamed": "true", "memoCopy": "true"},
         "rule": "call: at least one function executed, or an unsatisfied error with a converter present; sig: positional signatures.",
-        "runs": {"quick": [fam("call", 800, 0), fam("call", 300, 0, "malformed"), fam("sig", 600, 5), fam("hist", 400, 0), fam("redef", 300, 0), fam("conv", 300, 0)],
-                 "thorough": [fam("call", 200000, 0), fam("call", 20000, 0, "malformed"), fam("sig", 50000, 5), fam("hist", 40000, 0), fam("redef", 30000, 0), fam("conv", 30000, 0)]},
+        "runs": {"quick": [fam("call", 800, 0), fam("call", 300, 0, "malformed"), fam("call", 300, 0, "gens"), fam("sig", 600, 5), fam("hist", 400, 0), fam("redef", 300, 0), fam("conv", 300, 0)],
+                 "thorough": [fam("call", 200000, 0), fam("call", 20000, 0, "malformed"), fam("call", 30000, 0, "gens"), fam("sig", 50000, 5), fam("hist", 40000, 0), fam("redef", 30000, 0), fam("conv", 30000, 0)]},
     },
     "C02": {
         "claim": "Theorems: C02.refused (execution level, any oracle/behaviour/fuel: with an underivable parameter the target is never executed and the call does not succeed), C13.hopeless_reported / unsat_before_execution (graph level). Unsatisfiable calls are refused: error returned, target never run, no converter run with a missing argument, dedicated error type when every converter is satisfiable. Tied to the code by trace conformance on scenarios with a hopeless / underivable parameter (dead types, AND-unreachable converters, cycles) and the predicate evaluated on the real trace against the executable derivability fixpoint.",
         "note": "derivability is computed under the matching table of C01 (a superset of what the library can match, so the premise is conservative).",
         "theorems": ["ArgMapper.C13.hopeless_reported", "ArgMapper.C13.unsat_before_execution", "ArgMapper.C13.exact_not_listed", "ArgMapper.C02.refused", "ArgMapper.C02.refused_original_false"], "facts": {"r5SkipSame": "true", "r6NameTest": "true", "publishAfterUpdate": "true", "trackReaching": "true", "takeValuedNamed": "true", "memoCopy": "true"},
         "rule": "call: at least one function executed, or an unsatisfied error with a converter present.",
-        "runs": {"quick": [fam("call", 500, 0, "hopeless"), fam("call", 300, 0, "general")],
-                 "thorough": [fam("call", 60000, 0, "hopeless"), fam("call", 40000, 0, "general")]},
+        "runs": {"quick": [fam("call", 500, 0, "hopeless"), fam("call", 300, 0, "general"), fam("call", 150, 0, "gens")],
+                 "thorough": [fam("call", 60000, 0, "hopeless"), fam("call", 40000, 0, "general"), fam("call", 10000, 0, "gens")]},
     },
     "C03": {
         "claim": "Theorems: exact_wins_named (any oracle) and exact_wins (every legal Dijkstra oracle; uses C18.dist_exact and the weighted edge characterisation regenerated from graph.go): with an exactly matching supplied value for every parameter only the target executes and each parameter receives its exact value. Exact matches win: with an exactly matching supplied value for every parameter no converter runs and each parameter receives that value, whatever distractors are supplied. Tied to the code by trace conformance on the exact+distractors family (5 repetitions per scenario for tie-breaking) and the predicate on real traces.",
@@ -143,8 +143,8 @@ PROPS = {
         "claim": "Theorems (for every graph, oracle, behaviour and fuel): a failing execution is the last execution of the call and its error is what Call returns; a successful call executed no failing function; the target's own error is reported by the accessor. Tied to the code by trace conformance on chains with failing converters at every depth (multi-input, struct-returning, memoised) with error identity checked through provenance ids.",
         "note": "", "theorems": ["ArgMapper.C04.failing_execution_is_last", "ArgMapper.C04.ok_means_no_failure", "ArgMapper.C04.target_error_reported", "ArgMapper.C04.conv_error_verbatim"], "facts": {"r5SkipSame": "true", "r6NameTest": "true", "publishAfterUpdate": "true", "trackReaching": "true", "takeValuedNamed": "true", "memoCopy": "true"},
         "rule": "call: at least one function executed.",
-        "runs": {"quick": [fam("call", 500, 0, "fail"), fam("call", 200, 0, "general")],
-                 "thorough": [fam("call", 50000, 0, "fail"), fam("call", 20000, 0, "general")]},
+        "runs": {"quick": [fam("call", 500, 0, "fail"), fam("call", 200, 0, "general"), fam("call", 150, 0, "gens")],
+                 "thorough": [fam("call", 50000, 0, "fail"), fam("call", 20000, 0, "general"), fam("call", 10000, 0, "gens")]},
     },
     "C05": {
         "claim": "Theorems for the subtype-free fragment, every oracle: complete_single (single-input converters, cycles allowed: once callGraph finds every parameter reachable the call ends in success or in a function body's own error) and stable (the outcome class does not depend on the oracle). Subtypes and the multi-input acyclic clause by exploration. Chaining is complete and the outcome stable on well-behaved converter sets. Tied to the code by trace conformance on acyclic-satisfiable and single-input-cyclic families, 8 repetitions per scenario; completeness is judged against the matching table, with the table-but-not-library matches (gaps G1-G5) listed as known findings.",
@@ -154,8 +154,12 @@ PROPS = {
                  "thorough": [fam("call", 30000, 0, "single"), fam("call", 30000, 0, "acyclic")]},
     },
     "C07": {
-        "claim": "(theorems pending) Name affinity decides between equal candidates. Tied to the code by trace conformance on the two documented families (1-6 competing same-typed inputs; type-only vs name-using converter; all forms; shuffled registration order; 10 repetitions).",
-        "note": "", "theorems": [], "facts": {"r5SkipSame": "true", "r6NameTest": "true", "publishAfterUpdate": "true", "trackReaching": "true", "takeValuedNamed": "true", "memoCopy": "true"},
+        "claim": "Theorems (any legal complete pop order, negative weights allowed): feeder_pred / branch_pred / branch_pred_long (Dijkstra level), affinity_path / named_converter_path / named_converter_path' (the path chosen on the re-weighted reversed copy enters the converter's type-only input from the same-named supplied value; reaches the parameter through the name-using converter), walk_converts_feeder / walk_runs_named_converter (walking such a path executes the converter once, on the same-named value). Name affinity decides between equal candidates. The theorems' premises famA / famB / famB' are decidable and evaluated on the real pruned graph of every scenario (distribution key prem=). Tied to the code by trace conformance on the two documented families (1-6 competing same-typed inputs; type-only vs name-using converter; all forms; shuffled registration order; 10 repetitions).",
+        "note": "the path theorems are stated for the two documented shapes (feeders hanging off the root only; two converters fed by one supplied value); graphs outside those shapes are decided by conformance and the predicate on the trace.",
+        "theorems": ["ArgMapper.C07.feeder_pred", "ArgMapper.C07.branch_pred", "ArgMapper.C07.branch_pred_long",
+                     "ArgMapper.C07.affinity_path", "ArgMapper.C07.named_converter_path", "ArgMapper.C07.named_converter_path'",
+                     "ArgMapper.C07.walk_converts_feeder", "ArgMapper.C07.walk_runs_named_converter"],
+        "facts": {"r5SkipSame": "true", "r6NameTest": "true", "publishAfterUpdate": "true", "trackReaching": "true", "takeValuedNamed": "true", "memoCopy": "true"},
         "rule": "call: the converter executed.",
         "runs": {"quick": [fam("call", 250, 0, "affinity")], "thorough": [fam("call", 20000, 0, "affinity")]},
     },
